@@ -463,6 +463,10 @@ func (u *Unit) invoke(st *State, fr *Frame, in *ssa.Call, recv IfaceV, m *types.
 		return
 	}
 	if recv.Dyn != nil {
+		if res, ok := u.newObjModel(st, recv, m); ok {
+			k(st, res)
+			return
+		}
 		ms := u.P.Prog.MethodSets.MethodSet(recv.Dyn)
 		sel := ms.Lookup(m.Pkg(), m.Name())
 		if sel != nil {
